@@ -545,7 +545,7 @@ func (ega *EnhancedGroupAggregator) AddPostAggregationExpression(outputField, or
 	// placeholders exactly match the ones created earlier for requiredFields.
 	exprTemplate := originalExpr
 	for _, field := range requiredFields {
-		exprTemplate = strings.ReplaceAll(exprTemplate, field.FullCall, field.Placeholder)
+		exprTemplate = replaceOutsideLiterals(exprTemplate, field.FullCall, field.Placeholder)
 	}
 
 	// Detect aggregators whose input expressions themselves contain aggregation calls
@@ -584,7 +584,7 @@ func (ega *EnhancedGroupAggregator) AddPostAggregationExpression(outputField, or
 			transformed := field.InputField
 			for _, inner := range requiredFields {
 				if inner.FullCall != field.FullCall {
-					transformed = strings.ReplaceAll(transformed, inner.FullCall, inner.Placeholder)
+					transformed = replaceOutsideLiterals(transformed, inner.FullCall, inner.Placeholder)
 				}
 			}
 			// Replace the placeholder of this outer aggregator back to the transformed expression
@@ -829,3 +829,46 @@ func (w *WindowFunctionWrapper) Clone() AggregatorFunction {
 
 // Interface compliance check
 var _ Aggregator = (*EnhancedGroupAggregator)(nil)
+
+// replaceOutsideLiterals replaces every occurrence of old in s by new, except inside string literals
+// ('...' or "...") and except where old is only the tail of a longer name (sum(v) inside acc_sum(v)):
+// concat('sum(v)=', sum(v)) keeps its literal.
+func replaceOutsideLiterals(s, old, new string) string {
+	if old == "" {
+		return s
+	}
+	var b strings.Builder
+	quote := byte(0)
+	for i := 0; i < len(s); {
+		c := s[i]
+		if quote != 0 {
+			if c == quote {
+				quote = 0
+			}
+			b.WriteByte(c)
+			i++
+			continue
+		}
+		if c == '\'' || c == '"' {
+			quote = c
+			b.WriteByte(c)
+			i++
+			continue
+		}
+		if strings.HasPrefix(s[i:], old) {
+			prevIsName := false
+			if i > 0 {
+				p := s[i-1]
+				prevIsName = p == '_' || (p >= 'a' && p <= 'z') || (p >= 'A' && p <= 'Z') || (p >= '0' && p <= '9')
+			}
+			if !prevIsName {
+				b.WriteString(new)
+				i += len(old)
+				continue
+			}
+		}
+		b.WriteByte(c)
+		i++
+	}
+	return b.String()
+}
